@@ -1088,8 +1088,13 @@ impl<T: RadixSortable> AdvancedRadixSort<T> {
                 while end < data.len() && data[end].extract_key() == key {
                     end += 1;
                 }
-                if end - start > 1 {
-                    data[start..end].sort_unstable();
+                // runs of equal keys are short: a plain insertion pass by `Ord` is enough
+                for i in (start + 1)..end {
+                    let mut j = i;
+                    while j > start && data[j - 1] > data[j] {
+                        data.swap(j - 1, j);
+                        j -= 1;
+                    }
                 }
                 start = end;
             }
